@@ -25,6 +25,7 @@ ASSUMPTIONS = [
 PROFILES = [
     ('hier',         4, dict(reexport=0.0, method_pool=True, defs=(2, 5), roots=(1, 2), nested=0.0, subscript=0.3, star=0.0, alias=0.0)),
     ('hier-bad',     3, dict(reexport=0.0, method_pool=True, defs=(2, 5), roots=(1, 2), nested=0.0, inconsistent=0.5, star=0.0, alias=0.0)),
+    ('hier-hidden',  2, dict(reexport=0.0, method_pool=True, defs=(2, 5), roots=(1, 2), nested=0.0, star=0.0, alias=0.0, hide_overrides=0.5)),
     ('hier-wide',    2, dict(reexport=0.0, method_pool=True, defs=(3, 6), children=(3, 5), roots=(1, 3), nested=0.1, subscript=0.2)),
     ('hier-3bases',  4, dict(reexport=0.0, method_pool=True, defs=(3, 6), children=(2, 4), roots=(1, 2), nested=0.0, max_bases=3,
                              star=0.0, alias=0.0, imports=(1, 3))),
